@@ -19,6 +19,8 @@ def catalogue():
         ('date', datetime.date(2020, 1, 2)), ('time', datetime.time(1, 2, 3)), ('time', datetime.time(1, 2, 3, 500)),
         ('datetime', datetime.datetime(2020, 1, 2, 3, 4, 5, tzinfo=utc)), ('datetime', pytz.timezone('Europe/Paris').localize(datetime.datetime(2020, 1, 2, 3, 4, 5))),
         ('list', [1.0, 'a']), ('dict', {'a': 1.0}),
+        # the same instant in another zone / the same wall time in a zone with the same offset: different cells (the zone is part of the value)
+        ('datetime', pytz.timezone('Europe/Paris').localize(datetime.datetime(2020, 1, 2, 4, 4, 5))), ('datetime', pytz.timezone('Europe/Berlin').localize(datetime.datetime(2020, 1, 2, 3, 4, 5))),
     ]
 
 
@@ -123,6 +125,8 @@ def grid_laws(cat):
                 continue
             try:
                 same_val = (type(a) is type(b) and a == b)
+                if same_val and ka == kb == 'datetime' and a.tzinfo != b.tzinfo:
+                    same_val = False        # equal instants, different zones: materially different cells
             except TypeError:
                 same_val = False
             if same_val or (ka == kb == 'num' and abs(a - b) < 1e-6) or ({ka, kb} <= {'num'} and a == b):
